@@ -476,6 +476,15 @@ impl BlobSizeTracker {
             .stdout
             .take()
             .ok_or_else(|| io::Error::other("missing stdout from git cat-file batch"))?;
+        // Drain stderr while stdout is read: a child that fills the stderr pipe (one line per
+        // damaged object) would otherwise block before its stdout reaches EOF.
+        let stderr_reader = child.stderr.take().map(|mut err| {
+            std::thread::spawn(move || {
+                let mut buf = Vec::new();
+                let _ = err.read_to_end(&mut buf);
+                buf
+            })
+        });
         let mut reader = BufReader::new(stdout);
         let mut line = Vec::with_capacity(128);
         loop {
@@ -516,10 +525,9 @@ impl BlobSizeTracker {
                 self.oversize.insert(sha.to_vec());
             }
         }
-        let mut stderr_buf = Vec::new();
-        if let Some(mut err) = child.stderr.take() {
-            err.read_to_end(&mut stderr_buf)?;
-        }
+        let stderr_buf = stderr_reader
+            .and_then(|t| t.join().ok())
+            .unwrap_or_default();
         let status = child.wait()?;
         if !status.success() {
             let msg = String::from_utf8_lossy(&stderr_buf);
